@@ -211,7 +211,9 @@ Fixpoint eval (ctx : list (value * Z)) (e : expr) (s : rstate) {struct e} : resu
           end))
       end
   | EMatches _ re l r =>
-      match re with
+      (* the pattern is the VALUE of the right operand; a pre-compiled literal (re_const) is only a
+         shortcut for it: when the right operand is no longer that literal the field is ignored *)
+      match re_const re r with
       | Some p =>
           rbind (eval ctx l s) (fun va s1 =>
           lift here s1 (as_str va) (fun x =>
